@@ -364,10 +364,43 @@ def http_script(rng, script):
     return beh, model
 
 
+def reproducible(chk, fn, *args):
+    """run a scenario over real sockets; a violation is reported only if it shows again in two further executions of the same
+    scenario (real-time effects of the loopback connection pool must not raise an alarm); the others are counted"""
+    from core.check import Check
+    probe = Check(chk.prop, chk.tier, chk.seed)
+    probe.known = chk.known
+    fn(probe, *args)
+    if probe.violations:
+        for attempt in range(2):
+            again = Check(chk.prop, chk.tier, chk.seed)
+            again.known = chk.known
+            fn(again, *args)
+            if not again.violations:
+                chk.count("nonreproducible_disagreements")
+                probe.violations = []
+                break
+    # merge
+    chk.evaluations += probe.evaluations
+    chk.nontrivial |= probe.nontrivial
+    chk.traces += probe.traces
+    for k, v in probe.stats.items():
+        chk.count(k, v)
+    for smp in probe.samples:
+        if len(chk.samples) < 3:
+            chk.samples.append(smp)
+    chk.known_hits.update(probe.known_hits)
+    for sig, path, msg, no_input in probe.violations:
+        import json
+        with open(path) as fp:
+            rep = json.load(fp)
+        chk.violation(sig, rep["replay"], msg, no_input=no_input)
+
+
 def part_b(chk, rng, n):
     for i in range(n):
         sseed = f"C18B-{chk.seed}-{i}"
-        run_b_one(chk, sseed)
+        reproducible(chk, run_b_one, sseed)
 
 
 def run_b_one(chk, sseed):
@@ -447,13 +480,13 @@ def tiny_repo(url):
     return repo
 
 
-def run_tool(sb):
+def run_tool(sb, limit=120):
     config = Config(Path(sb.config_path))
     config.create_working_directories()
     apt = am.APTMirror(config)
     with fast_sleep():
         try:
-            return run_async(apt.run(), 120)
+            return run_async(apt.run(), limit)
         except SystemExit as ex:
             return ex.code if isinstance(ex.code, int) else 1
 
@@ -536,7 +569,16 @@ def run_c_one(chk, case):
         if case["h2off"]:
             lines.append(f"http2-disable {url}")
         sb.write_config(lines, settings)
-        rc = run_tool(sb)
+        if case.get("alpn_probe"):
+            # the server only records the negotiated protocol and hangs up: the run cannot succeed, and with an h2 connection
+            # torn down it does not even end (finding F-C18b); only the ALPN observation is used
+            try:
+                rc = run_tool(sb, limit=10)
+            except Timeout:
+                rc = None
+                chk.count("C_alpn_probe_runs_cut_off")
+        else:
+            rc = run_tool(sb)
         replay = {"part": "C", "case": case}
         reqs = [e for e in origin.log if e.get("event") == "request"]
         preqs = [e for e in (proxy_srv.log if proxy_srv else []) if e.get("event") == "request"]
@@ -675,7 +717,7 @@ def fault_behaviour(fault, data, mtime):
 
 def part_d(chk, rng, n):
     for i in range(n):
-        run_d_one(chk, f"C18D-{chk.seed}-{i}", ["none", "transient", "persistent-required", "persistent-optional"][i % 4])
+        reproducible(chk, run_d_one, f"C18D-{chk.seed}-{i}", ["none", "transient", "persistent-required", "persistent-optional"][i % 4])
 
 
 def run_d_one(chk, sseed, cls):
